@@ -144,6 +144,17 @@ CHECKS = {
              'modelled: direct oracle only (exploration).',
         technique='Rocq proof: exhaustive kernel computation over a finite domain + unbounded linear-algebra lemmas; differential correspondence',
         ref='DESIGN.md 4 (C18)'),
+    'C19': dict(
+        text='PARTIAL.  Theorems about Model/Series.v for every well-formed algebra and every commutative Q-algebra of coefficients: the '
+             'outerexp loop returns x^(wedge k)/k! term by term, never runs out of fuel, its break loses nothing, outerexp = the finite sum, '
+             'outersin / outercos = odd / even terms, outertan * outercos = outersin given the inverse; x**n = n-fold product, x**0 = 1, '
+             'x**-n = inv(x)**n, x**0.5 = sqrt, pow_add; (c + bI c2_inv)^2 = a + bI under the three ring conditions the code never checks '
+             '(= Study numbers with positive scalar part; proved satisfied over the reals for a > 0, a^2 - s >= 0); normalized has squared '
+             'norm 1; for x^2 = s the partial sums of sum x^k/k! equal (sum s^j/(2j)!) + (sum s^j/(2j+1)!) x, and over Coq\'s reals these '
+             'converge to the cosh/sinh, 1/1, cos/sinc triple that exp selects (standard-library Reals axioms only, named in the evidence).  '
+             'Not proved: float / complex / sympy evaluation, rounding, the inverse (C07).  Known finding F11: exp on array-valued coefficients.',
+        technique='Rocq proof (loop invariant, multivector-level ring laws, ring identities, real analysis over the standard-library Reals) + in-Coq exact (rational) and direct-oracle differential correspondence',
+        ref='DESIGN.md 4 (C19)'),
     'C20': dict(
         text='Theorems about Model/Graph.v (graph.py encode/walker + graph.js decode/toElement): decoding the payload reproduces for every '
              'well-formed subject tree (lists, tuples, callables, sparse/full/permuted/array-valued multivectors) the coefficient of every '
